@@ -10,8 +10,8 @@ rm -rf tests; git checkout -q -- . ; git apply $out/patch.diff || { echo "patch 
 echo "== suite with change"; cargo test --workspace --offline $feat 2>&1 | grep -E "^test result" 
 mkdir -p tests; cp $out/demo.rs tests/demo_$lc.rs
 echo "== demo with change (must fail)"; cargo test --offline $feat --test demo_$lc 2>&1 | grep -E "^test result|panicked" | head -5
-git stash -q -- src
+git apply -R $out/patch.diff   # (not `git stash`: the stash is shared by all worktrees of /repo)
 echo "== demo without change (must pass)"; cargo test --offline $feat --test demo_$lc 2>&1 | grep -E "^test result" | head -3
-git stash pop -q
+git apply $out/patch.diff
 rm -rf tests
 mkdir -p /verif/seeded/$id; cp $out/patch.diff $out/demo.rs /verif/seeded/$id/; cp $out/meta.json /verif/seeded/$id/meta.agent.json
